@@ -12,17 +12,19 @@ import (
 	"strings"
 )
 
-// VerifResetGlobals puts the process-wide note and numbering registries back
-// into their initial (nil) state.
-func VerifResetGlobals() {
-	globalFootnoteManager = nil
-	globalNumberingManager = nil
-}
+// VerifResetGlobals is kept for the checks that call it before every execution.  The note and
+// numbering registries it used to reset are per document since the fix of that defect, so there
+// is nothing left to reset; a registry that becomes process-wide again is therefore NOT hidden
+// from the checks by this hook.
+func VerifResetGlobals() {}
 
-// VerifGlobalsDump is a canonical dump of the process-wide registries.
-func VerifGlobalsDump() string {
+// VerifGlobalsDump is a canonical dump of the process-wide registries (none at present).
+func VerifGlobalsDump() string { return "" }
+
+// VerifNotesDump is a canonical dump of this document's note and numbering registries (state keys only).
+func (d *Document) VerifNotesDump() string {
 	var b strings.Builder
-	if m := globalFootnoteManager; m != nil {
+	if m := d.footnoteManager; m != nil {
 		fmt.Fprintf(&b, "fn next=%d/%d", m.nextFootnoteID, m.nextEndnoteID)
 		var ks []string
 		for k := range m.footnotes {
@@ -34,7 +36,7 @@ func VerifGlobalsDump() string {
 		sort.Strings(ks)
 		b.WriteString(strings.Join(ks, ","))
 	}
-	if m := globalNumberingManager; m != nil {
+	if m := d.numberingManager; m != nil {
 		fmt.Fprintf(&b, " num next=%d/%d", m.nextAbstractNumID, m.nextNumID)
 		var ks []string
 		for k := range m.abstractNums {
